@@ -31,6 +31,22 @@ LEVEL = {
             "array-element assignment (u.arr[0] = x) is not an assignment to a member in the sense of the property and is not driven."),
     "C12": ("EnumSpec.tla: declarative numbering (enum: previous+1, flag: next higher power of two, explicit values = ExprGrammar over earlier members) and the equality rule; MC_Enum proves the parser's numbering loop equal to it for all member lists <= 4 over 10 value forms; random declarations are loaded into the real library and members, the equality matrix (same class, other class incl. enum vs flag, int, alias member) and two-parses equality/hash for member, non-member, min, max values are judged by Trace_Enum; enum/flag scalars, arrays and bit-fields are parsed and dumped through Trace_Codec.",
             "flags over signed base types with negative values are finding F19 (listed)."),
+    "C13": ("TypeTable.tla states the name table (AddType with the re-declaration rule, Resolve with the hop bound, declarative Meaning); MC_TypeTable proves ResolveIsMeaning, NeverBindsElsewhere, SameObject, Redeclare over all histories of <= 4 add_type calls (3 names, 2 types, unknown targets, replace on/off). Abstract declaration lists are rendered with EVERY single insertion point x sampled fillers (space, tab, LF, CRLF, block / multi-line / line comments), random multi-insertions, dependency-respecting orders and splits into several load() calls; after each rendering the real table (every declared name projected back to an abstract type, alias identity, constants) is judged by Trace_Parser against the table obtained by folding the declarations over TypeTable from the built-in names.",
+            "the regex scanner itself is exercised as a black box through the renderings; insertion points exclude the inside of [...], the name-[ boundary and #define lines (the property's quantifier); line breaks inside an enum member are finding F12 (listed)."),
+    "C14": ("SessionSpec.tla gives instances their meaning (Zero, Init, UpdPath) with nothing else as state; Trace_Session is a stateful trace specification whose state is the set of live instances: after EVERY event (Construct, Parse, failed Parse, SetField at nested paths / array elements / bit-fields, Dump, Eq, Bool, Load / SetEndian / AddType on another cstruct object) the harness logs the projection of ALL live instances of three cstruct objects and TLC checks it equals the specification state - an action changes its target and nothing else; MC_Session proves Independent / FreshIsZero on the specification.",
+            "histories are random (14 / 30 events); the frame condition is checked on the instances the harness keeps alive."),
+    "C15": ("MC_Threads: all interleavings of 2 (3) threads evaluating one shared Expression at source-line granularity - Isolated and BenignShared hold with call-local stacks, and TLC returns the single-preemption counter-example with the pre-fix layout (negative control in every run). Real threads are then run under a deterministic scheduler (sys.settrace line events, semaphores): every single-preemption schedule of each thread, sampled double preemptions and 3-thread rotations over random definitions with expressions, bit-fields, unions, pointers and arrays; every distinct per-thread outcome is validated by TLC against Decode, i.e. the solo result.",
+            "bounded preemptions (1, sampled 2); line granularity (not bytecode); CPython with the GIL."),
+    "C16": ("PtrSpec.tla: Deref = Decode(target, content, addr) (char -> NUL-terminated), null / no stream -> dedicated error, Arith yields a pointer of the same type on the same stream, Dump = address; MC_Ptr proves Width, Unsigned, NullIsNull, DerefIsParse, StreamStays, DumpIsAddr over widths 1/2/4/8 x byte order x 5 targets x 7 addresses; Trace_Ptr is a stateful trace specification (stream position, parsed value) judging histories Parse / Deref (twice) / Arith+Deref / Dump / Default on real structures with planted addresses, both readers.",
+            "addresses are guarded to small integers for arithmetic in TLC."),
+    "C17": ("Same trace specification as C14 with the clauses eq / hash / bool / construct / dump: equality is same class (per cstruct object) and field-wise (ValEq), equal instances hash equally when hashable, bool = Truthy of the Python value, positional / keyword construction = Init = assignment on Zero; MC_Session proves InitIsAssign, EqIsFieldwise and AssignLocal (a single assignment changes only bits of that field's data mask in the dump) on the specification; the random definitions include a twin class with the same field count and other names to stress the cached code templates.",
+            "NaN floats excluded; -0.0 == 0.0 follows Python."),
+    "C18": ("MC_Layout is the layout loop of the implementation as a state machine (offset, alignment, bits_type, bits_field_offset, bits_remaining; fields keep offsets of earlier commits) run over every structure of the bounded universe x EVERY split of its field list into commits, proved equal to CLayout after each commit (LoopIsCRule, NoStaleOffset); real classes are built with add_field / start_update batches on compiled or interpreted empty classes and with forward references to themselves; layout after every commit, final __compiled__, parse and dump are judged by Trace_Codec against the one-shot class and Decode.",
+            "field types of the incremental class are taken from the one-shot class."),
+    "C19": ("Hexdump.tla states Lossless / Cosmetic and pack/unpack/swap on limb integers; MC_Hexdump is the generator loop of utils.py as a state machine (i, j, remaining, active, palette) for all data lengths 0..34 x palettes of <= 3 entries with lengths {0,1,15,16,17}; real output (string and generator form, prefixes, offsets, palettes; dumpstruct in both forms; pack/unpack/p8..u64/swap incl. values that do not fit) is tokenised and judged by Trace_Utils.",
+            "dumpstruct(T, data) is driven with len(data) = len(T) only."),
+    "C20": ("Trace_Stub computes StubDecls from the abstract declaration list (classes with bases, folded fields with hint trees that name the field's type, enum members, aliases resolved through TypeTable, constants, nothing else at top level) and compares it with the ast projection of the real stub text; syntactic validity is the `valid` flag of that projection. The three shapes that yield invalid Python are finding F15 (listed).",
+            "syntactic validity is decided by ast.parse in the projection; hints are compared up to module prefixes and generated anonymous names."),
 }
 
 
